@@ -79,6 +79,18 @@ def check_valid(mido, type_, attrs, acc, t=0, via_file=True, input_attrs=None):
                           f'{bad}', case)
         acc.nontrivial += 1
         return
+    # what bytes() returns is the caller's: scribble on it, encode again
+    try:
+        b.append(0x99)
+        b[0] = 0
+        if list(m.bytes()) != exp:
+            acc.violation(f'bytes-aliased/{type_}',
+                          f'after changing the list returned by bytes(), '
+                          f'{desc}.bytes() = {_short(list(m.bytes()))}', case)
+            return
+    except (AttributeError, TypeError):
+        pass
+    b = list(exp)
     # decode
     try:
         m2 = MM.from_bytes(list(b))
@@ -95,6 +107,27 @@ def check_valid(mido, type_, attrs, acc, t=0, via_file=True, input_attrs=None):
                           f'len={_lenclass(exp)}',
                           f'from_bytes(bytes of {desc}) = {_short(vars(m2))}, '
                           f'original {_short(want)}', case)
+    if m2 is not None and len(exp) < 3000:
+        # the decoded message is the caller's: change it, decode again
+        try:
+            m2.time = 777
+            for k in list(vars(m2)):
+                if k not in ('type', 'time') and isinstance(
+                        vars(m2)[k], int) and not isinstance(vars(m2)[k], bool):
+                    try:
+                        setattr(m2, k, 0 if vars(m2)[k] else 1)
+                    except (ValueError, TypeError):
+                        pass
+                    break
+            m2b = MM.from_bytes(list(b))
+            if vars(m2b) != dict(vars(m), time=0) or m2b is m2:
+                acc.violation(f'from_bytes-aliased/{type_}',
+                              f'after changing a message returned by '
+                              f'from_bytes, decoding the bytes of {desc} again '
+                              f'gave {_short(vars(m2b))}', case)
+        except Exception as e:
+            acc.violation(f'from_bytes-aliased-raises/{type_}/{type(e).__name__}',
+                          f'{e!r}', case)
     if via_file:
         try:
             mf = mido.MidiFile(file=io.BytesIO(track_file(b)))
